@@ -3,7 +3,7 @@ from common import COMMON_TB
 CFG = {
     "technique": "Lean 4 theorems about the query functions of the wtxmgr model on an arbitrary store + differential run: model = Ledger specification (details, ranges) = real wtxmgr.Store after every event, for sampled (thorough: all) transactions and boundary height ranges in both directions",
     "level_text": "Proved for every store: TxDetails answers none exactly when no record with the hash exists; a reported transaction is shown as unconfirmed exactly when it is in the unconfirmed bucket, otherwise under the block of its latest mined record; every listed credit is a stored credit of that record with its amount/change flag and spent = (stored spent flag or spent by an unconfirmed tx); the unconfirmed batch of RangeTransactions follows the -1 rule in both directions and lists each unconfirmed record once.",
-    "level_note": "PARTIAL w.r.t. the Ledger: that the store's records are those of the ledger after every consistent history (refinement) is not proved; Ledger.details / Ledger.range are compared with the model and with the real Go answers at run time (oracle keys details, unique-details, range). Zero-value credits lose their debit/spent flag after a rollback (finding F6, key rollback.zero-value-credit).",
+    "level_note": "PARTIAL w.r.t. the Ledger: that the store's records are those of the ledger after every consistent history (refinement) is not proved; Ledger.details / Ledger.range are compared with the model and with the real Go answers at run time (oracle keys details, unique-details, range). Zero-value credits (former finding F6) fixed in /repo 7fa9939; reverting it yields VIOLATION key=rollback.zero-value-credit.",
     "lean_props": ["BtcwVerif.Props.C13"],
     "engines": ["txstore"],
     "trusted_base": COMMON_TB + [
